@@ -337,7 +337,7 @@ func scopeIncludes(strategy, granted, required string) bool {
 var fullCatalogue = []string{
 	"sig-flip", "sig-truncate", "sig-empty", "alg-none", "alg-hs-pem", "alg-hs-der", "alg-hs-jwk", "alg-other",
 	"kid-other", "kid-remove", "kid-unknown", "iss-untrusted", "iss-missing", "iss-near-miss", "iss-near-miss", "iss-near-miss", "aud-wrong", "aud-missing", "scope-missing",
-	"scope-char-prefix", "scope-child", "scope-sibling", "scope-dot-prefix", "scope-char-suffix", "scope-ancestor", "scope-one-missing",
+	"scope-char-prefix", "scope-child", "scope-sibling", "scope-dot-prefix", "scope-char-suffix", "scope-ancestor", "scope-one-missing", "scope-one-missing-others-repeated",
 	"exp-far-past", "exp-just-past", "exp-inside-leeway", "exp-zero", "exp-negative", "exp-string", "exp-huge", "exp-missing",
 	"nbf-future", "nbf-inside-leeway", "iat-future", "nbf-beyond-int64", "nbf-2pow63", "nbf-maxint64", "nbf-far-future", "iat-beyond-int64", "iat-maxint64", "exp-year-one", "resign-other-key", "two-parts", "four-parts", "payload-edit-unsigned",
 	"header-edit-unsigned", "sub-swap-unsigned",
@@ -345,7 +345,7 @@ var fullCatalogue = []string{
 }
 
 var scopeCatalogue = []string{"scope-missing", "scope-char-prefix", "scope-child", "scope-sibling", "scope-dot-prefix", "scope-char-suffix",
-	"scope-ancestor", "scope-one-missing"}
+	"scope-ancestor", "scope-one-missing", "scope-one-missing-others-repeated"}
 
 // genToken builds a valid token for one key of the set and then applies 0-2 mutations.
 func genToken(t *rapid.T, set []keyEntry, eff assertions, now int64, catalogue []string) token {
@@ -506,7 +506,7 @@ func genToken(t *rapid.T, set []keyEntry, eff assertions, now int64, catalogue [
 		case "scope-missing":
 			delete(tk.Claims, "scp")
 			tk.Claims["scope"] = "unrelated"
-		case "scope-char-prefix", "scope-child", "scope-sibling", "scope-dot-prefix", "scope-char-suffix", "scope-ancestor", "scope-one-missing":
+		case "scope-char-prefix", "scope-child", "scope-sibling", "scope-dot-prefix", "scope-char-suffix", "scope-ancestor", "scope-one-missing", "scope-one-missing-others-repeated":
 			// near misses of the required scopes; whether the token is still acceptable is decided by the reference matcher
 			if len(eff.Scopes) == 0 {
 				break
@@ -534,6 +534,11 @@ func genToken(t *rapid.T, set []keyEntry, eff assertions, now int64, catalogue [
 				case "scope-one-missing":
 					if i != 0 {
 						granted = append(granted, req)
+					}
+				case "scope-one-missing-others-repeated":
+					// (as many granted scopes as required ones, or more - but not each of the required ones)
+					if i != 0 || len(eff.Scopes) == 1 {
+						granted = append(granted, req, req, "unrelated", req)
 					}
 				}
 			}
